@@ -107,6 +107,20 @@ HdrFindSpecX(mx, Window) ==
        ELSE LET hl == LE4(XBytes(mx, i + 8, 4)) IN
             IF hl > mx.len - i THEN [k |-> "err"]
             ELSE Ok(Some([at |-> i, len |-> hl, idx |-> U32Bytes(i)]))
+\* loading on a structural (large) region: only the header words and the last 8 bytes are read
+LoadSpecX(mx) ==
+  LET T == LE4(XBytes(mx, 0, 4)) IN
+  IF T < 8 THEN Err("Memory(ShorterThanHeader)")
+  ELSE IF T % 8 # 0 THEN Err("Memory(MissingPadding)")
+  ELSE IF XBytes(mx, T - 8, 8) # EndTagBytes THEN Err("NoEndTag")
+  ELSE Ok([start |-> 0, end |-> T, ptr |-> 0, total |-> T])
+HLoadSpecX(mx) ==
+  LET L == LE4(XBytes(mx, 8, 4)) IN
+  IF L < 16 THEN Err("Memory(ShorterThanHeader)")
+  ELSE IF L % 8 # 0 THEN Err("Memory(MissingPadding)")
+  ELSE IF XBytes(mx, 0, 4) # HdrMagic THEN Err("MagicNotFound")
+  ELSE IF ~ChecksumOk(XBytes(mx, 0, 4), XBytes(mx, 4, 4), XBytes(mx, 8, 4), XBytes(mx, 12, 4)) THEN Err("ChecksumMismatch")
+  ELSE Ok([len |-> L])
 \* reference design: a 4-byte window scan over the first min(len, Window) bytes
 RECURSIVE ScanFrom(_, _, _)
 ScanFrom(mem, i, W) ==
